@@ -61,6 +61,9 @@ func c15Run(r *core.Run) {
 	if !o.PreHistory(r) || !o.Build() {
 		return
 	}
+	if t.Int(5, "c15.otherapi") == 1 {
+		OtherAPICalls(r, o.Node.SP, 1)
+	}
 	switch clockMode {
 	case 1:
 		y := o.Epoch.Year()
